@@ -10,6 +10,7 @@ import (
 	"net"
 	"net/http"
 	"strings"
+	"sync"
 	"sync/atomic"
 	"time"
 
@@ -337,6 +338,31 @@ func c16Topology(c *Ctx, idx int, total int, steps []topoStep, failedUse bool, r
 // ---------------------------------------------------------------------------------------------------------------------
 // 2. healing
 
+// c16ProgressSteps client round trips, each followed by a pause of idle/4, are at least c16ProgressSteps/4 idle timeouts
+// during which the proxy demonstrably ran (it answered every one of them): a muted connection that is still open after
+// that many is a violation, with fewer the watchdog verdict stays inconclusive.
+const c16ProgressSteps = 120
+
+// c16WaitClosed waits until the proxy has closed the connection, at most 160 answered client round trips with a pause of
+// idle/4 after each; it returns how many round trips were answered.
+func c16WaitClosed(bed *px.Bed, victim *fakecass.Conn, idle time.Duration) (closed bool, steps int) {
+	cl, err := bed.ReadyClient(primitive.ProtocolVersion4, "")
+	if err != nil {
+		return waitFor(func() bool { return victim.IsClosed() }, 40*idle), 0
+	}
+	defer cl.Close()
+	for i := 0; i < 160; i++ {
+		if victim.IsClosed() {
+			return true, steps
+		}
+		if cl.Options(int16(1+i%1000), 5*time.Second) == nil {
+			steps++
+		}
+		time.Sleep(idle / 4)
+	}
+	return victim.IsClosed(), steps
+}
+
 func c16Heal(c *Ctx, idx int, hosts, conns int, fault string) {
 	r := c.R
 	scenario := map[string]interface{}{"kind": "heal", "idx": idx, "hosts": hosts, "conns": conns, "fault": fault}
@@ -456,12 +482,43 @@ func c16Heal(c *Ctx, idx int, hosts, conns int, fault string) {
 		}
 		checkPolicyLog(r, bed, base, max, scenario)
 		return
-	case "mute-pooled":
+	case "mute-pooled", "mute-pooled-busy":
 		var victim *fakecass.Conn
 		for _, x := range bed.Cluster.Hosts[target-1].Conns() {
 			if !x.IsRegistered() {
 				victim = x
 			}
+		}
+		if fault == "mute-pooled-busy" {
+			// the connection goes silent while requests are in flight on it
+			victim = nil
+			var vmu sync.Mutex
+			var armed int32 = 1
+			bed.Cluster.SetScript(func(a *fakecass.Arrival) fakecass.Outcome {
+				if a.Host == target && atomic.LoadInt32(&armed) == 1 {
+					vmu.Lock()
+					if victim == nil || victim == a.Conn {
+						victim = a.Conn
+						vmu.Unlock()
+						return fakecass.Silence()
+					}
+					vmu.Unlock()
+				}
+				return fakecass.Rows()
+			})
+			if bcl, err := bed.ReadyClient(primitive.ProtocolVersion4, ""); err == nil {
+				defer bcl.Close()
+				for k := 0; k < 3*hosts*conns; k++ {
+					_ = bcl.SendF(BuildRequest(primitive.ProtocolVersion4, int16(k+1), KQuery, true, NewTok(), primitive.ConsistencyLevelOne))
+				}
+				waitFor(func() bool { vmu.Lock(); defer vmu.Unlock(); return victim != nil }, 5*time.Second)
+				time.Sleep(10 * time.Millisecond)
+			}
+			atomic.StoreInt32(&armed, 0)
+			vmu.Lock()
+			v := victim
+			vmu.Unlock()
+			victim = v
 		}
 		if victim == nil {
 			r.Inconc("c16 heal: no pooled connection to mute")
@@ -470,12 +527,16 @@ func c16Heal(c *Ctx, idx int, hosts, conns int, fault string) {
 		before := bed.Cluster.OptionsCount(victim.ID)
 		victim.Mute()
 		bound := int(idle/hb) + 2
-		closed := waitFor(func() bool { return victim.IsClosed() }, 40*idle)
+		closed, steps := c16WaitClosed(bed, victim, idle)
 		unanswered := bed.Cluster.OptionsCount(victim.ID) - before
 		r.Obs("muted_connections", 1)
 		r.ObsMax("max:unanswered_heartbeats_before_close", unanswered)
 		if unanswered > bound {
 			r.Violate(mon.Violation{Signature: "C16/muted-connection-not-closed", Detail: fmt.Sprintf("a connection that stopped answering received %d heartbeats (bound idle/heartbeat+2 = %d) and closed=%v", unanswered, bound, closed), Scenario: scenario})
+			return
+		}
+		if !closed && steps >= c16ProgressSteps {
+			r.Violate(mon.Violation{Signature: "C16/muted-connection-not-replaced", Detail: fmt.Sprintf("a pooled connection stopped answering (heartbeats unanswered: %d); it was still open after %d client round trips through the proxy, each followed by a pause of a quarter of the idle timeout (%s): the proxy was running for at least %d idle timeouts and did not replace it", unanswered, steps, idle, steps/4), Scenario: scenario})
 			return
 		}
 		if !closed {
@@ -492,9 +553,13 @@ func c16Heal(c *Ctx, idx int, hosts, conns int, fault string) {
 		before := bed.Cluster.OptionsCount(victim.ID)
 		victim.Mute()
 		bound := int(idle/hb) + 2
-		closed := waitFor(func() bool { return victim.IsClosed() }, 40*idle)
+		closed, steps := c16WaitClosed(bed, victim, idle)
 		unanswered := bed.Cluster.OptionsCount(victim.ID) - before
 		r.Obs("muted_connections", 1)
+		if !closed && steps >= c16ProgressSteps {
+			r.Violate(mon.Violation{Signature: "C16/muted-control-connection-not-replaced", Detail: fmt.Sprintf("the control connection stopped answering (heartbeats unanswered: %d); it was still open after %d client round trips through the proxy, each followed by a pause of a quarter of the idle timeout (%s)", unanswered, steps, idle), Scenario: scenario})
+			return
+		}
 		if unanswered > bound {
 			r.Violate(mon.Violation{Signature: "C16/muted-control-connection-not-closed", Detail: fmt.Sprintf("a control connection that stopped answering received %d heartbeats (bound %d), closed=%v", unanswered, bound, closed), Scenario: scenario})
 			return
@@ -832,10 +897,10 @@ func runC16(c *Ctx) {
 			}
 		}
 	}
-	faults := []string{"kill-pooled", "kill-host", "kill-control", "kill-all", "mute-pooled", "mute-control", "stop-all-restart-one"}
+	faults := []string{"kill-pooled", "kill-host", "kill-control", "kill-all", "mute-pooled", "mute-control", "stop-all-restart-one", "mute-pooled-busy"}
 	for i := 0; i < c.Pick(28, 1400); i++ {
 		if j := next(); c.Mine(j) {
-			c16Heal(c, i, 1+i%4, 1+(i/4)%2, faults[i%len(faults)])
+			c16Heal(c, i, 1+i%4, 1+(i/4)%2, faults[(i+i/8)%len(faults)])
 		}
 	}
 	for i := 0; i < c.Pick(3, 150); i++ {
